@@ -1,7 +1,7 @@
 """
 C13 on statement TEXTS that no grammar family produces: every combination of a label field, a mnemonic and an operand text drawn
 from fragments of the operand grammar (lone prefixes, unbalanced brackets, doubled separators, dangling operators, over-long
-numbers, a non-ASCII letter ...), assembled inside a small valid program.  BOUNDED (7,320 concrete lines); the clauses are the
+numbers, a non-ASCII letter ...), assembled inside a small valid program.  BOUNDED (7,320 concrete lines in the thorough tier, 3,660 in the quick tier); the clauses are the
 property's: the assembler terminates, and what leaves Program.process is a diagnostic (ParseError / TranslationError), never an
 internal error.  Failure signatures name the exception class, the phase of Program.process in which it was raised (its outermost
 public method: stable under extraction of helpers) and the exact input (label index, operand index); the known findings list,
@@ -26,6 +26,8 @@ class AsmText:
     def cells(self, tier):
         out = []
         for li, lb in enumerate(LABELS):
+            if tier == "quick" and li not in (0, 1, 3):
+                continue          # quick: no label, a plain label, a label that starts with a digit; thorough: all six label fields
             for mn in MNEMONICS:
                 out.append({"id": "text/%d/%s" % (li, mn), "label": lb, "mn": mn, "bounded": "label field %r, mnemonic %s, %d operand texts" % (lb, mn, len(OPERANDS))})
         return out
